@@ -259,6 +259,28 @@ def flat_field(f):
     return False
 
 
+# the two public APIs, with and without an explicit keep_undefined
+DESER_APIS = ["Deserializer", "deserialize_structure", "Deserializer", "deserialize_structure",
+              "Deserializer/ku=True", "Deserializer/ku=False", "deserialize_structure/ku=False"]
+
+
+def deser_call(api, cls, doc):
+    from typedpy import Deserializer, deserialize_structure
+    name, _, opt = api.partition("/ku=")
+    kw = {} if not opt else {"keep_undefined": opt == "True"}
+    if name == "Deserializer":
+        return Deserializer(cls).deserialize(doc, **kw)
+    return deserialize_structure(cls, doc, **kw)
+
+
+def deser_src(api, cls_name, doc_src):
+    name, _, opt = api.partition("/ku=")
+    extra = "" if not opt else ", keep_undefined=%s" % opt
+    if name == "Deserializer":
+        return "x = Deserializer(%s).deserialize(%s%s)" % (cls_name, doc_src, extra)
+    return "x = deserialize_structure(%s, %s%s)" % (cls_name, doc_src, extra)
+
+
 def gen_chain(rnd, ctx, env):
     """A chain of 1-4 entries (JSON-able lists); class names refer to ctx."""
     a, b, c, h = env
@@ -283,12 +305,15 @@ def gen_chain(rnd, ctx, env):
         # deserialization of a document = the keyword arguments as a dict
         flat = all(flat_field(fd["field"]) for fd in fields) and all(json_shaped(v) for _, v in kw) \
             and all(k != "zz" for k, _ in kw)
-        chain.append(["deser", start["name"], kw, rnd.choice(["Deserializer", "deserialize_structure"]), bool(flat)])
+        chain.append(["deser", start["name"], kw, rnd.choice(DESER_APIS), bool(flat)])
     elif r < 0.92:
         chain.append(["deser_ser", start["name"], kw, rnd.choice(["Deserializer", "deserialize_structure"]),
                       rnd.random() < 0.3])
-    else:
+    elif r < 0.96:
         chain.append(["from_mapping", start["name"], kw, []])
+    else:
+        # the documented use of from_other_class: any object that has the attributes
+        chain.append(["from_object", start["name"], kw, [], [fd["name"] for fd in fields]])
     cur = start["name"]
     for _ in range(rnd.choice([0, 1, 1, 2, 2, 3, 3])):
         cur_ast = by[cur]
@@ -335,10 +360,7 @@ def run_step(ctx, cur, en):
     if kind == "ctor":
         return ctx.classes[en[1]](**real(en[2]))
     if kind == "deser":
-        doc = real(en[2])
-        if en[3] == "Deserializer":
-            return Deserializer(ctx.classes[en[1]]).deserialize(doc)
-        return deserialize_structure(ctx.classes[en[1]], doc)
+        return deser_call(en[3], ctx.classes[en[1]], real(en[2]))
     if kind == "deser_ser":
         # document = serialization of a real instance (when it can be built), optionally with one
         # entry replaced
@@ -348,11 +370,11 @@ def run_step(ctx, cur, en):
         if en[4] and doc:
             k = sorted(doc)[0]
             doc[k] = [doc[k]]
-        if en[3] == "Deserializer":
-            return Deserializer(cls).deserialize(doc)
-        return deserialize_structure(cls, doc)
+        return deser_call(en[3], cls, doc)
     if kind == "from_mapping":
         return ctx.classes[en[1]].from_other_class(real(en[2]), **real(en[3]))
+    if kind == "from_object":
+        return ctx.classes[en[1]].from_other_class(types.SimpleNamespace(**real(en[2])), **real(en[3]))
     if kind == "from_other":
         return ctx.classes[en[1]].from_other_class(cur, **real(en[2]))
     if kind == "clone":
@@ -363,6 +385,9 @@ def run_step(ctx, cur, en):
         kw = real(en[3])
         kw[en[2]] = cur
         return ctx.classes[en[1]](**kw)
+    if kind == "ctor_attr":
+        # Cls(attr=cur.attr): the stored (possibly wrapper) object of another instance handed to a constructor
+        return ctx.classes[en[1]](**{en[2]: getattr(cur, en[2])})
     if kind == "copy":
         return copy.copy(cur)
     if kind == "deepcopy":
@@ -446,9 +471,14 @@ def kwlit(kw):
     return E.lst(["(%s, %s)" % (E.pstr(k), E.pval(v)) for k, v in kw])
 
 
-def emit_entry(en):
+def emit_entry(en, cur_r=None):
     """(Gallina entry, compare?)"""
     k = en[0]
+    if k == "ctor_attr":
+        held = dict(cur_r[2]).get(en[2]) if (cur_r and cur_r[0] == "struct") else None
+        if held is None:
+            return "(ECtor %s [])" % E.pstr(en[1]), False       # getattr fails / yields a default: not modelled
+        return "(ECtor %s %s)" % (E.pstr(en[1]), kwlit([(en[2], held)])), True
     if k == "ctor":
         return "(ECtor %s %s)" % (E.pstr(en[1]), kwlit(en[2])), True
     if k == "deser":
@@ -457,6 +487,12 @@ def emit_entry(en):
         return "(EDeser %s %s)" % (E.pstr(en[1]), kwlit(en[2])), False
     if k == "from_mapping":
         return "(EFromMapping %s %s %s)" % (E.pstr(en[1]), kwlit(en[2]), kwlit(en[3])), True
+    if k == "from_object":
+        # attributes the object lacks are skipped (a mapping yields None for them): the constructor gets
+        # exactly the keyword arguments, as for keyword construction
+        # (attributes that are not fields of the class are not looked at)
+        return "(ECtor %s %s)" % (E.pstr(en[1]), kwlit([p for p in en[2] if p[0] in en[4] and p[0] not in dict(en[3])]
+                                                       + list(en[3]))), True
     if k == "from_other":
         return "(EFromOther %s %s)" % (E.pstr(en[1]), kwlit(en[2])), True
     if k == "clone":
@@ -504,7 +540,7 @@ def all_env_fields(ctx):
 
 def emit_case(ctx, step):
     en, cur_r, out, flags = step
-    term, cmp_ = emit_entry(en)
+    term, cmp_ = emit_entry(en, cur_r)
     cmp_ = cmp_ and not flags
     tbl = G.match_table(all_env_fields(ctx), entry_values(en) + [cur_r] + ([out[1]] if out[0] == "ok" else [])
                         + [fd["default"] for c in ctx.asts for fd in c["fields"] if fd.get("default") is not None])
@@ -735,16 +771,17 @@ def python_src(ctx, chain, env=None):
         if k == "ctor":
             lines.append("x = %s(%s)" % (en[1], kws(en[2])))
         elif k == "deser":
-            lines.append(("x = Deserializer(%s).deserialize(%s)" if en[3] == "Deserializer"
-                          else "x = deserialize_structure(%s, %s)") % (en[1], d(en[2])))
+            lines.append(deser_src(en[3], en[1], d(en[2])))
         elif k == "deser_ser":
             lines.append("doc = Serializer(%s(%s)).serialize()" % (en[1], kws(en[2])))
             if en[4]:
                 lines.append("k = sorted(doc)[0]; doc[k] = [doc[k]]")
-            lines.append(("x = Deserializer(%s).deserialize(doc)" if en[3] == "Deserializer"
-                          else "x = deserialize_structure(%s, doc)") % en[1])
+            lines.append(deser_src(en[3], en[1], "doc"))
         elif k == "from_mapping":
             lines.append("x = %s.from_other_class(%s%s)" % (en[1], d(en[2]), "".join(", " + kws([p]) for p in en[3])))
+        elif k == "from_object":
+            lines.append("import types\nx = %s.from_other_class(types.SimpleNamespace(**%s)%s)" % (
+                en[1], d(en[2]), "".join(", " + kws([p]) for p in en[3])))
         elif k == "from_other":
             lines.append("x = %s.from_other_class(x%s)" % (en[1], "".join(", " + kws([p]) for p in en[2])))
         elif k == "clone":
@@ -753,6 +790,8 @@ def python_src(ctx, chain, env=None):
             lines.append("x = x.cast_to(%s)" % en[1])
         elif k == "wrap":
             lines.append("x = %s(%s)" % (en[1], ", ".join(([kws(en[3])] if en[3] else []) + ["%s=x" % en[2]])))
+        elif k == "ctor_attr":
+            lines.append("x = %s(%s=x.%s)" % (en[1], en[2], en[2]))
         elif k == "copy":
             lines.append("x = copy.copy(x)")
         elif k == "deepcopy":
@@ -792,6 +831,15 @@ def enums_def():
         out.append("{| en_name := %s; en_by_value := false; en_members := %s |}" % (
             E.pstr(n), E.lst(["(%s, %s)" % (E.pstr(m.name), E.pval(E.reify(m.value))) for m in cls])))
     return "Definition ens0 : enums := %s.\n" % E.lst(out)
+
+
+def deser_ku(api):
+    """keep_undefined as the model's `option bool` / bool: Deserializer.deserialize defaults to None (adjusted by
+    the class), deserialize_structure to True."""
+    name, _, opt = api.partition("/ku=")
+    if opt:
+        return "(Some %s)" % E.blit(opt == "True")
+    return "None" if name == "Deserializer" else "(Some true)"
 
 
 def deser_doc_cases(items):
@@ -836,7 +884,7 @@ def evaluate_deser(cases, tag="c01deser", per=300):
                                 + [fd["default"] for c in ctx.asts for fd in c["fields"] if fd.get("default") is not None])
             recs.append("{| dc_tbl := %s; dc_env := env0; dc_ens := ens0; dc_flags := %s; dc_ku := %s; dc_cls := %s; "
                         "dc_doc := %s; dc_obs := %s |}" % (
-                            G.emit_table(tbl), flags, "None" if en[3] == "Deserializer" else "(Some true)",
+                            G.emit_table(tbl), flags, deser_ku(en[3]),
                             E.pstr(en[1]), E.pval(doc), E.outcome(out)))
         body += "Definition dcases : list dcase := %s.\n" % E.lst(["\n " + r for r in recs])
         body += "Eval vm_compute in (map dflags_of dcases).\n"
